@@ -35,7 +35,7 @@ var pub4 = []string{"8.8.8.8", "1.1.1.1", "93.184.216.34", "203.0.114.9", "192.0
 var priv4 = []string{"10.0.0.1", "10.255.255.254", "172.16.0.1", "172.31.255.1", "192.168.1.1", "127.0.0.1", "169.254.10.10", "100.64.0.1", "192.0.2.55", "198.18.0.1", "198.19.255.254"}
 var pub6 = []string{"2606:4700:4700::1111", "2a00:1450:4001:81b::200e", "2400:cb00::1"}
 var priv6 = []string{"::1", "fe80::1", "fc00::1", "fd12:3456::1", "2001:db8::7"}
-var junk = []string{"\"", "unknown", "_hidden", "", "junk", "1.2.3", "1.2.3.4.5", "gggg::1", "1.2.3.4:80:90", "0.0.0.0", "::", "-", "a.b.c.d", "300.1.1.1", "1.1.1.1 2.2.2.2", "8.8.8.8%a%b", "[2606:4700::1111%x%y]:443", "fe80::1%a%b", "%eth0", "::ffff:0.0.0.0", "::ffff:0:0", "[::ffff:0.0.0.0]:80", "0:0:0:0:0:ffff:0:0", "0.0.0.0:80", "[::]:80"}
+var junk = []string{"\"", "unknown", "_hidden", "", "junk", "1.2.3", "1.2.3.4.5", "gggg::1", "1.2.3.4:80:90", "0.0.0.0", "::", "-", "a.b.c.d", "300.1.1.1", "1.1.1.1 2.2.2.2", "8.8.8.8%a%b", "[2606:4700::1111%x%y]:443", "fe80::1%a%b", "%eth0", "::ffff:0.0.0.0", "::ffff:0:0", "[::ffff:0.0.0.0]:80", "0:0:0:0:0:ffff:0:0", "0.0.0.0:80", "[::]:80", "[9.9.9.9:80]", "[9.9.9.9:]", "[[2001:4860:4860::8888]:443]", "[[2001:4860:4860::8888]]", "[8.8.4.4:53]:53", "[2001:4860:4860::8844:x]"}
 
 func genEntry(r *rand.Rand, forwarded bool) entry {
 	if r.IntN(5) == 0 {
@@ -542,7 +542,9 @@ func one(run *kit.Run, r *rand.Rand) {
 			var gotL string
 			if !run.Guard("panic|long-chain|"+id, rep, func() { gotL = result(long.ClientIP(ctxFor(key, vals, "192.0.2.200:4444", nil))) }) {
 				var gotS string
-				run.Guard("panic|chain|"+id, rep, func() { gotS = result(clientip.NewChain(a, b, clientip.NewRemoteAddr()).ClientIP(ctxFor(key, vals, "192.0.2.200:4444", nil))) })
+				run.Guard("panic|chain|"+id, rep, func() {
+					gotS = result(clientip.NewChain(a, b, clientip.NewRemoteAddr()).ClientIP(ctxFor(key, vals, "192.0.2.200:4444", nil)))
+				})
 				if gotL != gotS {
 					run.Violate("long-chain|"+id, fmt.Sprintf("a chain of 6 failing resolvers followed by the usual three returns %s, the usual three alone return %s\n%s=%q", gotL, gotS, key, vals), rep)
 				}
